@@ -306,6 +306,14 @@ def dflt(e):
         return e(NotPassed()) if not isinstance(e, type) else e()
 
 
+def ann(e):
+    return e.annotation
+
+
+def item_anns(e):
+    return e.item_annotations
+
+
 def prop_for(props, key):
     return props[key]
 
@@ -359,3 +367,11 @@ def members_subset(a, b):
 
 def prefix(xs, k):
     return list(xs)[:k]
+
+
+def all_members(xs, pred):
+    return all(pred(x) for x in xs)
+
+
+def some_member(xs, pred):
+    return any(pred(x) for x in xs)
